@@ -303,6 +303,7 @@ func (c *Cluster) AbortAll() {
 			delete(c.locks, k)
 		}
 	}
+	c.waitq = map[string][]*Session{}
 	for _, d := range c.data {
 		clearPending(d.txs)
 		clearPending(d.accounts)
@@ -323,4 +324,20 @@ func clearPending[K comparable, T any](m map[K]*vrow[T]) {
 			r.pending, r.pendingBy = nil, nil
 		}
 	}
+}
+
+// DebugLocks describes the lock table and wait-for edges (for stuck-run reports).
+func (c *Cluster) DebugLocks() []string {
+	c.mu.Lock()
+	defer c.mu.Unlock()
+	var out []string
+	for k, ls := range c.locks {
+		w := ""
+		if ls.owner != nil && ls.owner.waitingKey != "" {
+			w = " owner-waits-for-key=" + ls.owner.waitingKey
+		}
+		out = append(out, fmt.Sprintf("%s owner=s%d(client %d) sess=%d xact=%v%s", k, ls.owner.id, ls.owner.client, ls.sess, ls.xact, w))
+	}
+	sort.Strings(out)
+	return out
 }
